@@ -162,6 +162,16 @@ def _lookup_cases():
                 cv, lv = v["cfg"][i % len(v["cfg"])], v["log"][i % len(v["log"])]
                 for client in ("async", "blocking"):
                     out.append({"c": [plat, cv, lv], "client": client})
+        # ... and revisions that are NOT shipped (one above the highest, and every gap between shipped ones): such a spa must be
+        # refused, never served with the tables of a neighbouring revision
+        for plat, v in sorted(packs.platforms().items()):
+            for what in ("cfg", "log"):
+                have = sorted(v[what])
+                missing = sorted({x + 1 for x in have if x + 1 not in have and x + 1 < 256})[:3]
+                for mv in missing:
+                    cv, lv = (mv, v["log"][0]) if what == "cfg" else (v["cfg"][0], mv)
+                    for client in ("async", "blocking"):
+                        out.append({"c": [plat, cv, lv], "client": client, "unshipped": what})
         _LOOKUPS = out
     return _LOOKUPS
 
@@ -315,7 +325,7 @@ def _check_combo(res, plat, cv, lv):
                 res.fail(sig + "|module-missing", f"{g} not shipped")
 
 
-def _check_lookup(res, plat, cv, lv, client):
+def _check_lookup(res, plat, cv, lv, client, unshipped=None):
     """the clients' own module lookup: a spa that reports this platform / cfg / log in its FILES reply must end up with exactly
     the shipped table modules of that name (the real connection code runs against the in-process simulator)"""
     from geckolib.driver import GeckoStructure
@@ -358,6 +368,12 @@ def _check_lookup(res, plat, cv, lv, client):
 
         W.run(main)
         got = out.get("mods")
+        if unshipped:
+            ix_ = 1 if unshipped == "cfg" else 2
+            if got is not None and got[ix_] is not None:
+                res.fail(f"C18|lookup|{client}|unshipped-revision-served", f"a spa reporting {pack.name} C{cv:02}/S{lv:02} (no such {unshipped} table is shipped) "
+                         f"was given {got[ix_]}")
+            return
         if out.get("events"):
             res.fail(sig + "|not-found", f"a spa reporting {pack.name} C{cv:02}/S{lv:02}: the client reports {out['events']}; modules {got}")
             return
@@ -371,9 +387,17 @@ def _check_lookup(res, plat, cv, lv, client):
             except KeyError:
                 pass
             except Exception as exc:  # noqa  (the library raises plain Exception when a table module is missing)
+                if unshipped:
+                    return      # refused: what the property asks for
                 res.fail(sig + "|not-found", f"blocking client, spa reporting {pack.name} C{cv:02}/S{lv:02}: {type(exc).__name__}: {exc}")
                 return
             got = tuple(type(x).__module__ if x is not None else None for x in (spa.new_pack_class, spa.new_config_class, spa.new_log_class))
+            if unshipped:
+                ix_ = 1 if unshipped == "cfg" else 2
+                if got[ix_] is not None:
+                    res.fail(f"C18|lookup|{client}|unshipped-revision-served", f"a spa reporting {pack.name} C{cv:02}/S{lv:02} (no such {unshipped} table is "
+                             f"shipped) was given {got[ix_]}")
+                return
     if got != want:
         res.fail(sig + "|wrong-module", f"spa reports {pack.name} C{cv:02}/S{lv:02}: client loaded {got}, shipped tables are {want}")
 
@@ -383,7 +407,7 @@ def run_case(case) -> Result:
     res.nontrivial = True
     k = case.get("k")
     if k == "lookup":
-        _check_lookup(res, case["c"][0], int(case["c"][1]), int(case["c"][2]), case.get("client", "async"))
+        _check_lookup(res, case["c"][0], int(case["c"][1]), int(case["c"][2]), case.get("client", "async"), case.get("unshipped"))
         res.label("lookup-" + case.get("client", "async"))
         return res
     if k == "item":
